@@ -104,6 +104,13 @@ def osRenameView (umask : Nat) : KFS → List Act2 → List Act2
     | .base (.renameFail _ d) => if fs d = some .dir then rest else a :: rest
     | _ => a :: rest
 
+/-- `WriteFileWithMode` against the kernel: a run that would otherwise commit fails in its rename when the destination
+    is a directory -/
+def writeFileK (fs : KFS) (tmp dst : Path) (N mode : Nat) (pieces : List Bytes) (cb : CbMode) (fault : Fault) :
+    Res × List Act :=
+  writeFile tmp dst N mode pieces cb
+    (if fs dst = some .dir ∧ (writeFile tmp dst N mode pieces cb fault).1 = .ok then .rename else fault)
+
 /-- `CreateWithMode` against the kernel: `O_EXCL` on the candidate name; `par` is the directory the destination and the
     temporary file live in: unless it IS a directory the open fails (ENOENT / ENOTDIR) -/
 def createK (tmp dst par : Path) (mode : Nat) (fs : KFS) : Option File × List Act2 :=
